@@ -95,6 +95,7 @@ func initProperties() {
 				use("NATIVERET", "native status handled", inPkgs("conv/j2t")),
 				use("SIZEPATCH", "portable converter patches placeholder container counts", inPkgs("conv/j2t")),
 				use("BMSET", "written fields are recorded in the requires bitmap", inPkgs("conv/j2t")),
+				use("UNDOMARK", "a null value removes the whole entry it was written for", inPkgs("conv/j2t")),
 				use("EXPCASE", "both exponent markers accepted by the portable number scanner", nil),
 				use("CASEEXIT", "kind mismatch is an error", nil),
 				use("OPTAGREE", "portable reads mapped options", nil),
@@ -181,6 +182,7 @@ func initProperties() {
 				use("UNUSEDBOUND", "length / depth bounds handed to a walker are used", nil),
 				use("SENTINELPOS", "negative `none` positions never reach a slicing callee", nil),
 				use("NILGUARDAGREE", "optional collaborators are nil-tested at every call site", nil),
+				use("CURSORREL", "the cursor only moves relatively (a callee's byte count is added, never assigned)", nil),
 				use("ERRASSERT", "no unchecked error type assertion can panic", nil),
 				use("PACKEDKIND", "packed payloads are walked by the element kind", nil),
 				use("NATIVEQUOTE", "string escaper retry contract", nil),
@@ -334,6 +336,7 @@ func initProperties() {
 				use("REFLOCAL", "same-file references (service inheritance) are resolved", inPkgs("thrift")),
 				use("FIELDNEVERSET", "no descriptor accessor returns a never-assigned field", inPkgs("thrift")),
 				use("LITPAIR", "name and alias are set together", inPkgs("thrift")),
+				use("PARSEPURE", "a parse leaves nothing behind for the next parse", nil),
 			)},
 		{ID: "C15", Title: "Protobuf descriptors mirror the schema",
 			Decides: "the compiling cache is keyed injectively (CACHEKEY: message types sharing a simple name get distinct descriptors), kind/wire/packedness tables match the spec (KINDTABLE), name maps are built (BUILDPAIR).",
@@ -347,6 +350,7 @@ func initProperties() {
 				use("ATTRCOVER", "every schema attribute the property names is read by the parser", nil),
 				use("FIELDNEVERSET", "no descriptor accessor returns a never-assigned field", inPkgs("proto")),
 				use("LITPAIR", "name and JSON name are set together", inPkgs("proto")),
+				use("PARSEPURE", "a parse leaves nothing behind for the next parse", nil),
 			)},
 		{ID: "C16", Title: "Requiredness, defaults and unknown-field options behave as documented", QuickP: true,
 			Decides: "each write/disallow option reaches its own flag bit with the documented polarity (FLAGSYNC), options reach the matching parameter of HandleRequires/CheckRequires/EncodeText/ReadAnyWithDesc (ARGSWAP), an unknown member is an error exactly when disallowed and is otherwise skipped (NEGPOLARITY, UNKNOWNSKIP), unset fields are written under the same key as present ones (KEYSRC), the descriptor's requires bitmap is only copied, never written (DESCIMMUT).",
@@ -386,6 +390,8 @@ func initProperties() {
 			NotDec:  "agreement of outputs, text-encoder exactness (opaque blob).",
 			Uses: uses(
 				use("STUBTABLE", "flavour tables", nil),
+				use("CURSORREL", "native skip result is added to the cursor", thriftPkg),
+				use("UNDOMARK", "portable converter removes null entries completely, as the native one does", inPkgs("conv/j2t")),
 				use("EXPCASE", "both exponent markers accepted by the portable number scanner", nil),
 				use("TAGPARTITION", "one implementation per platform", nil),
 				use("OPTAGREE", "same options", nil),
@@ -401,6 +407,7 @@ func initProperties() {
 			Uses: uses(
 				use("WIDTHTABLE", "widths agree", nil),
 				use("CLAUSEWIDTH", "fixed-width clauses use the label's width", thriftPkg),
+				use("CURSORREL", "the cursor only moves relatively", thriftPkg),
 				use("HDRFIRST", "header first", thriftPkg),
 				use("STRUCTPAIR", "STOP written", thriftPkg),
 				use("CASTUSED", "cast value written", thriftPkg),
@@ -447,6 +454,23 @@ func initProperties() {
 				use("LOOPPROGRESS", "loops consume", protoBinary),
 			)},
 	}
+	// clauses of rules that the hand-written summary does not name yet are appended, so that the
+	// MANIFEST text and DESIGN.md always list everything that is checked
+	for _, p := range properties {
+		var extra []string
+		seen := map[string]bool{}
+		for _, u := range p.Uses {
+			if seen[u.Rule] || strings.Contains(p.Decides, u.Rule) {
+				continue
+			}
+			seen[u.Rule] = true
+			extra = append(extra, u.What+" ("+u.Rule+")")
+		}
+		if len(extra) > 0 {
+			p.Decides = strings.TrimRight(p.Decides, ". ") + "; further structural clauses: " + strings.Join(extra, ", ") + "."
+		}
+	}
+
 }
 
 // writeManifest regenerates /verif/MANIFEST.json from the property table.
